@@ -373,6 +373,27 @@ pub fn combine_case(ctx: &mut Ctx, seed: u64) {
                 bad.push(("selection_differs_from_sublist", format!("selection {sel:?}")));
             }
         }
+        // the list built in pieces: combine each piece, then fold the partial lists together (2 and 3 pieces, also empty)
+        for _ in 0..3 {
+            let (i, j) = (r.below(n + 1), r.below(n + 1));
+            let (i, j) = (i.min(j), i.max(j));
+            let pieces = [&list[..i], &list[i..j], &list[j..]];
+            let mut left = b::combine_ingredients(pieces[0]);
+            for p in &pieces[1..] {
+                bm::merge_ingredient_lists(&mut left, &b::combine_ingredients(p));
+            }
+            if let Some((k, m)) = compare(&left, &want, dyadic) {
+                bad.push(("merged_partial_lists_differ_from_one_combination", format!("pieces [..{i}] [{i}..{j}] [{j}..]: {k}: {m}")));
+                break;
+            }
+            // a list merged into an empty one is itself
+            let mut empty = bm::IngredientList::default();
+            bm::merge_ingredient_lists(&mut empty, &c);
+            if let Some((k, m)) = compare(&empty, &want, dyadic) {
+                bad.push(("merge_into_empty_list_changes_it", format!("{k}: {m}")));
+                break;
+            }
+        }
         (bad, orders.len())
     });
     match res {
